@@ -47,3 +47,15 @@ Example ex_acn_discovery_handled :
       (acn_handle false 121 [])
   = Done ([], [EvPage [18; 18; 18; 18; 18; 18; 18; 18; 18; 18; 18; 18; 18; 18; 18; 2] 0 0 [258; 3]]).
 Proof. vm_compute. reflexivity. Qed.
+
+(* the E1.33 (RPT) and LLRP header decoders accept a well-formed packet (they are added to the root inflator by the
+   harness; olad's E131Node does not register them) *)
+Definition acn_e133_pkt : list N := [0; 16; 0; 0; 65; 83; 67; 45; 69; 49; 46; 49; 55; 0; 0; 0; 112; 105; 0; 0; 0; 5; 17; 17; 17; 17; 17; 17; 17; 17; 17; 17; 17; 17; 17; 17; 17; 1; 112; 83; 0; 0; 0; 1; 114; 112; 116; 45; 115; 111; 117; 114; 99; 101; 0; 0; 0; 0; 0; 0; 0; 0; 0; 0; 0; 0; 0; 0; 0; 0; 0; 0; 0; 0; 0; 0; 0; 0; 0; 0; 0; 0; 0; 0; 0; 0; 0; 0; 0; 0; 0; 0; 0; 0; 0; 0; 0; 0; 0; 0; 0; 0; 0; 0; 0; 0; 0; 0; 215; 33; 13; 255; 127; 131; 0; 112; 6; 204; 130; 183; 14].
+Example ex_acn_e133 : match run (acn_e133_pkt ++ repeat 165 1351) (acn_handle false 121 []) with
+  | Done (_, [EvRdm133 _ _ d]) => d = [130; 183; 14] | _ => False end.
+Proof. vm_compute. reflexivity. Qed.
+
+Definition acn_llrp_pkt : list N := [0; 16; 0; 0; 65; 83; 67; 45; 69; 49; 46; 49; 55; 0; 0; 0; 112; 54; 0; 0; 0; 10; 17; 17; 17; 17; 17; 17; 17; 17; 17; 17; 17; 17; 17; 17; 17; 1; 112; 32; 0; 0; 0; 3; 19; 19; 19; 19; 19; 19; 19; 19; 19; 19; 19; 19; 19; 19; 19; 3; 63; 31; 101; 168; 112; 6; 204; 26; 80; 57].
+Example ex_acn_llrp : match run (acn_llrp_pkt ++ repeat 165 1402) (acn_handle false 70 []) with
+  | Done (_, [EvLlrp _ _ d]) => d = [26; 80; 57] | _ => False end.
+Proof. vm_compute. reflexivity. Qed.
